@@ -460,6 +460,13 @@ def cutoff_run(mod, fname, base, neg, externals, model='LP64'):
                  'accumulator after an overflow is neither unchanged nor the type limit %d' % clamp)
         elif flagged and ((vany.k == 'ci' and vany.ival == -1) or (vany.k == 'inst' and vany.id == pf.id)):
             T.ob('flag-sticky', same_acc, where, 'accumulator modified although the overflow flag is already set')
+            # the subject sequence ends at the first character that is not a digit of the base, also once the value has
+            # overflowed: the end pointer of "99999999999999999999abc" is the 'a'
+            D, B = digit_and_base(interp, st)
+            T.ob('digit-below-base-after-overflow', D is not None and B is not None and B > 0 and
+                 st.cons.entails_le(0, D) and st.cons.entails_le(D, B - 1), where,
+                 'once the overflow flag is set a character is consumed although its digit value is not provably in [0, %s]: '
+                 'the scan (and the end pointer) runs on over characters that are not digits of the base' % (None if B is None else B - 1))
         else:
             T.ob('edge-classified', False, where,
                  'a digit passes the loop without being accumulated or rejected (flag value %r)' % (anyl,))
